@@ -14,6 +14,7 @@ from rv.project import Project
 from rv.readers.reader import read_sunvox_file
 from rvproof.contract import contract
 
+TECHNIQUE = "contract-based deductive verification of attach_module on a reference list of arbitrary length and of Note.mod for all 16-bit numbers (z3); attach histories as labelled bounded stand-in"
 LEVEL = "other"
 LEVEL_TEXT = (
     "Mixed. Deductive: Note.mod / Note.module_index resolution for EVERY 16-bit module number against module lists with every pattern "
